@@ -83,7 +83,8 @@ class dtml_re_class:
                 end = '/'
 
             else:
-                if text[s:s + 5] == '&dtml' and text[s + 5] in '.-':
+                if text[s:s + 5] == '&dtml' and \
+                   text[s + 5:s + 6] in ('.', '-'):
                     n = s + 6
                     e = text.find(';', n)
                     if e >= 0:
@@ -93,7 +94,7 @@ class dtml_re_class:
                         if mo is not None:
                             if mo.end(0) - mo.start(0) == l_:
                                 d = self.__dict__
-                                if text[s + 5] == '-':
+                                if text[s + 5:s + 6] == '-':
                                     d[1] = d['end'] = ''
                                     d[2] = d['name'] = 'var'
                                     d[0] = text[s:e + 1]
